@@ -77,14 +77,15 @@ R.contract("AvpTime.value", params={"self": "AvpTime"}, returns="datetime",
            ensures=[("decodes", "len(self.payload) == 4 and result.ts == ntp_to_unix(u32(self.payload))")],
            raises=[Raise("AvpDecodeError", "len(self.payload) != 4", "iff")], props=["C01", "C04"])
 R.contract("AvpTime.value.fset", params={"self": "AvpTime", "new_value": "datetime"},
-           ensures=[("layout", f"self.payload == be32((new_value.ts + {NTP_DELTA}) % 2**32)"),
-                    # the part of the domain rejection that holds on the reference tree (the known finding
-                    # C01-time-range-wrap is the rest of the must-raise clause: 1900..1968 and 2104..2172 are wrapped):
-                    # a time more than one era away from either era origin is never accepted
-                    ("returns-only-for-times-within-one-era-of-1900-or-2036",
-                     f"{-NTP_DELTA} <= new_value.ts and new_value.ts < {2085978496 + 2**32}")],
+           ensures=[("layout", f"self.payload == be32((new_value.ts + {NTP_DELTA}) % 2**32)")],
            raises=[Raise("AvpEncodeError", f"not ({T_MIN} <= new_value.ts <= {T_MAX})", "iff")],
            modifies=["self.payload"], props=["C01"])
+# the part of the domain rejection that holds on the reference tree (the known finding C01-time-range-wrap is the rest of the
+# must-raise clause: 1900..1968 and 2104..2172 are wrapped into the other era): a time more than one era away from either era
+# origin is never accepted
+R.contracts["AvpTime.value.fset"].must_raise = [
+    ("a-time-more-than-one-era-away-from-1900-or-2036-is-rejected",
+     f"new_value.ts < {-NTP_DELTA} or new_value.ts >= {2085978496 + 2**32}")]
 R.contract("AvpTime.value.fset#str", params={"self": "AvpTime", "new_value": "str"},
            ensures=[("never-returns", "False")],
            raises=[Raise("AvpEncodeError", "True", "iff")], props=["C01"])
